@@ -68,6 +68,7 @@ def trees(files):
 
 
 def execute(case, ctx):
+    ctx.persistent = True  # plugin sessions of this history share one directory incl. __pycache__ (logical clock for mtimes, see sim.sync_tree)
     prog, driver, fmt = case["program"], case["driver"], case["fmt"]
     out = {"violations": [], "discards": {}, "abstract": []}
     files, orders = P.render(prog, drivers.simlib_text())
